@@ -306,7 +306,7 @@ func (w *World) addShard(seed Seed, ordinal int) {
 		b, _ := json.Marshal(&info)
 		os.WriteFile(filepath.Join(dir, "kvass-shard.json"), b, 0o755)
 	}
-	s, err := rig.NewSidecar(dir, w.net, false)
+	s, err := rig.NewSidecar(dir, w.net, true)
 	if err != nil {
 		panic(fmt.Sprintf("sidecar start: %v", err))
 	}
